@@ -1,5 +1,52 @@
 package main
 
+import (
+	"fmt"
+	"go/ast"
+	"path/filepath"
+	"strings"
+)
+
 // genTables: icon / lock / speed / no-access bitmaps and the button-colour table of
-// rawpanelhelpers.go -> Gen/Tables.v (owned by the C18 work; stub until then).
-func genTables(repo, out string) {}
+// rawpanelhelpers.go -> Gen/Tables.v (C18).  Everything is read from the AST of the
+// current /repo source: package-level `var x = []byte{...}`, `var icons8by8 = [7][]byte{{..},..}`
+// and the local `var buttonColors = []byte{...}` inside convertToColorRGB16bit.
+func genTables(repo, out string) {
+	path := filepath.Join(repo, "rawpanelhelpers.go")
+	fset, f := parseFile(path)
+	var b strings.Builder
+	b.WriteString(header)
+
+	for _, nm := range [][2]string{{"speedGraphic", "speed_graphic"}, {"noAccessGraphic", "no_access_graphic"}, {"lockGraphic", "lock_graphic"}} {
+		cl := findVarLit(f, "", nm[0])
+		if cl == nil {
+			die("rawpanelhelpers.go: var %s not found", nm[0])
+		}
+		fmt.Fprintf(&b, "Definition %s : list Z :=\n  %s.\n\n", nm[1], coqZList(byteList(fset, cl)))
+	}
+
+	icons := findVarLit(f, "", "icons8by8")
+	if icons == nil {
+		die("rawpanelhelpers.go: var icons8by8 not found")
+	}
+	b.WriteString("Definition icons8by8 : list (list Z) :=\n  [")
+	for i, e := range icons.Elts {
+		inner, ok := e.(*ast.CompositeLit)
+		if !ok {
+			die("rawpanelhelpers.go: icons8by8 element %d is not a composite literal", i)
+		}
+		if i > 0 {
+			b.WriteString(";\n   ")
+		}
+		b.WriteString(coqZList(byteList(fset, inner)))
+	}
+	b.WriteString("].\n\n")
+
+	bc := findVarLit(f, "convertToColorRGB16bit", "buttonColors")
+	if bc == nil {
+		die("rawpanelhelpers.go: buttonColors not found in convertToColorRGB16bit")
+	}
+	fmt.Fprintf(&b, "Definition button_colors : list Z :=\n  %s.\n", coqZList(byteList(fset, bc)))
+
+	writeIfChanged(filepath.Join(out, "Tables.v"), b.String())
+}
